@@ -83,7 +83,7 @@ pub fn translate(src: &str, opts: &Options) -> Res<String> {
     }
     let is_enum = |t: &str| file.items.iter().any(|it| matches!(it, Item::Enum(e) if e.ident == t));
     for t in &types {
-        if !defs.contains_key(t) && !is_enum(t) {
+        if !t.is_empty() && !defs.contains_key(t) && !is_enum(t) {
             if let Some((_, line)) = tuple_structs.iter().find(|(n, _)| n == t) {
                 return Err(Error(format!("{}:{}: struct `{}` has no named fields", label, line, t)));
             }
@@ -120,6 +120,8 @@ pub fn translate(src: &str, opts: &Options) -> Res<String> {
         no_hoist: 0,
         last_borrow: None,
         effect_seen: false,
+        bits_ctx: None,
+        ret_borrow: None,
         effect_info: vec![],
         state: vec![],
         deferred_tys: BTreeMap::new(),
@@ -128,12 +130,21 @@ pub fn translate(src: &str, opts: &Options) -> Res<String> {
         loop_ctx: None,
     };
     // the inherent impl blocks of each type
+    let mut free_fns: Vec<syn::ImplItemFn> = vec![];
+    for it in &file.items {
+        if let Item::Fn(f) = it {
+            free_fns.push(syn::ImplItemFn { attrs: f.attrs.clone(), vis: f.vis.clone(), defaultness: None, sig: f.sig.clone(), block: (*f.block).clone() });
+        }
+    }
     let mut methods: BTreeMap<String, Vec<&syn::ImplItemFn>> = BTreeMap::new();
+    for f in &free_fns {
+        methods.entry(String::new()).or_default().push(f);
+    }
     for it in &file.items {
         if let Item::Impl(im) = it {
-            if im.trait_.is_some() {
-                continue;
-            }
+            // the methods of trait impls (`BitOrAssign::bitor_assign`, …) can be asked for too; a trait impl that does not fit
+            // (lifetimes, where clauses) is passed over
+            let of_trait = im.trait_.is_some();
             let name = match &*im.self_ty {
                 Type::Path(p) if p.qself.is_none() => p.path.segments.last().map(|s| s.ident.to_string()).unwrap_or_default(),
                 _ => continue,
@@ -141,6 +152,7 @@ pub fn translate(src: &str, opts: &Options) -> Res<String> {
             if !types.contains(&name) {
                 continue;
             }
+            let mut fits = true;
             for gp in &im.generics.params {
                 match gp {
                     syn::GenericParam::Type(tp) if opts.type_map.iter().any(|(r, _)| *r == tp.ident.to_string()) => {
@@ -152,13 +164,23 @@ pub fn translate(src: &str, opts: &Options) -> Res<String> {
                         } else {
                             format!("the type parameter `{}: {}` of `impl {name}` is `{lean}` (the trait's functions used are listed under the functions taken as given)", tp.ident, bounds)
                         };
-                        note!(tr, generics, n);
+                        if !of_trait {
+                            note_once(&mut tr.notes.generics, n);
+                        }
                     }
+                    _ if of_trait => fits = false,
                     _ => return Err(Error(format!("{}:{}: outside the supported subset: generic impl block for `{}` (give every type parameter a Lean type with --type)", label, line_of(im.span()), name))),
                 }
             }
             if let Some(wc) = &im.generics.where_clause {
-                return Err(Error(format!("{}:{}: outside the supported subset: generic impl block for `{}` with a where clause", label, line_of(wc.span()), name)));
+                if of_trait {
+                    fits = false;
+                } else {
+                    return Err(Error(format!("{}:{}: outside the supported subset: generic impl block for `{}` with a where clause", label, line_of(wc.span()), name)));
+                }
+            }
+            if !fits {
+                continue;
             }
             for ii in &im.items {
                 if let ImplItem::Fn(f) = ii {
@@ -210,7 +232,7 @@ pub fn translate(src: &str, opts: &Options) -> Res<String> {
             if fs.is_empty() {
                 None
             } else {
-                Some(format!("`impl {}`: {}", t, fs.join(", ")))
+                Some(if t.is_empty() { format!("free functions: {}", fs.join(", ")) } else { format!("`impl {}`: {}", t, fs.join(", ")) })
             }
         })
         .collect();
